@@ -95,6 +95,8 @@ def synthetic_messages():
             out.append(dict(base, message_type="app:m", value=v))
             out.append(dict(base, action_type="app:a", action_status="started", value=v, another=[v]))
         out.append(dict(base))  # no type at all
+        out.append(dict(base, message_type="", value=v))  # log_message("") / Message.log() without a type
+        out.append(dict(base, action_type="", action_status="succeeded", value=v))  # start_action() default type
     return out
 
 
